@@ -84,7 +84,11 @@ func c13Run(c *core.Case, o *core.Outcome) {
 			// rates of billions per tick
 			profile = 7
 		}
-		pname := []string{"zero", "constant", "bursts", "ramp", "random", "huge", "extreme", "billions"}[profile]
+		if j != 0 && profile < 6 && r.IntN(10) == 0 {
+			// an enormous volume early on (1e15 per tick for ten ticks), then an ordinary trickle: the trickle is still delivered
+			profile = 8
+		}
+		pname := []string{"zero", "constant", "bursts", "ramp", "random", "huge", "extreme", "billions", "afterglow"}[profile]
 		konst := 1 + r.IntN(500)
 		seqAt := func(k int) int {
 			switch profile {
@@ -101,6 +105,14 @@ func c13Run(c *core.Case, o *core.Outcome) {
 				return k % 977
 			case 4:
 				return int((uint64(k)*2654435761 + uint64(konst)) % 3000)
+			case 8:
+				if k < 10 {
+					return 1_000_000_000_000_000
+				}
+				if k < 60 {
+					return 1_000_000_000_000_000 >> (k - 9)
+				}
+				return 1 + konst%3
 			case 7:
 				return 3_000_000_000 + (k%5)*700_000_000 + konst
 			case 6:
@@ -127,7 +139,7 @@ func c13Run(c *core.Case, o *core.Outcome) {
 		// one sequence in eight takes its jitter from a config-file stage instead of calling WithJitter itself: a
 		// ramp (or constant) stage with `jitter: j`; the un-jittered rate is the same stage parsed with jitter 0
 		fileStage := ""
-		if profile != 6 && profile != 7 && r.IntN(8) == 0 {
+		if profile != 6 && profile != 7 && profile != 8 && r.IntN(8) == 0 {
 			fileStage = pick(r, "ramp", "staged", "constant", "staged")
 			freq := pick(r, "100ms", "250ms", "1s", "2s")
 			a, bb := 1+r.IntN(400), 1+r.IntN(4000)
